@@ -105,6 +105,38 @@ pub mod bytes {
         kani::cover!(s == e, "empty window");
     }
 
+    /// First next() and first next_back() of fresh top-level iterators through
+    /// the x86 dispatcher with a symbolic CPU (concrete length: cheap).
+    #[cfg(any(vcfg_x86std, vcfg_x86none, vcfg_x86alloc, vcfg_x86avx2, vcfg_x86rel))]
+    pub fn top_first<const LEN: usize>() {
+        let hb: [u8; LEN] = kani::any();
+        let h = place(&hb[..]);
+        let (n1, n2, n3): (u8, u8, u8) = (kani::any(), kani::any(), kani::any());
+        let sse2: bool = kani::any();
+        let avx2: bool = kani::any();
+        kani::assume(!avx2 || sse2);
+        memchr::verif::force_sse2(Some(sse2));
+        memchr::verif::force_avx2(Some(avx2));
+        let mut it = memchr::memchr_iter(n1, h);
+        let a = it.next();
+        check_first(h, a, |b| b == n1);
+        let b = it.next_back();
+        let lo = match a {
+            Some(i) => i + 1,
+            None => LEN,
+        };
+        check_last(&h[lo..], b.map(|i| i - lo), |x| x == n1);
+        let mut it3 = memchr::memchr3_iter(n1, n2, n3, h);
+        let c = it3.next_back();
+        check_last(h, c, |x| x == n1 || x == n2 || x == n3);
+        let mut it2 = memchr::memchr2_iter(n1, n2, h);
+        let d = it2.next();
+        check_first(h, d, |x| x == n1 || x == n2);
+        kani::cover!(a.is_some() && b.is_some(), "front and back matches");
+        kani::cover!(!sse2, "fallback");
+        kani::cover!(avx2, "AVX2");
+    }
+
     /// Base case: a fresh iterator has window (0, len).
     pub fn top_base<const LEN: usize>() {
         let hb: [u8; LEN] = kani::any();
@@ -374,3 +406,6 @@ pub mod bytes_generic {
 inst!(it_top1_step_6, [props=C06 xprops=C14+C05 tier=thorough cfg=x86std t=1500 role=memchr-iter-step uw=@MEMCHR], 3, bytes::top_step::<6>(1, true));
 inst!(it_seq_swar_6x2, [props=C06 xprops=C14 tier=quick cfg=x86std t=1500 role=iter-call-sequences uw=@MEMCHR;sequence:8;oracle::count:8], 3, bytes::sequence::<6, 2>(1));
 inst!(it_seq_top_generic_6x3, [props=C06 xprops=C14 tier=quick cfg=generic t=1500 role=iter-call-sequences uw=@MEMCHR;sequence:10;oracle::count:10], 3, bytes::sequence::<6, 3>(0));
+
+#[cfg(any(vcfg_x86std, vcfg_x86none, vcfg_x86alloc, vcfg_x86avx2, vcfg_x86rel))]
+inst!(it_top_first_x86_9, [props=C06 xprops=C05+C14 tier=quick cfg=x86std t=1500 role=memchr-iter-dispatcher uw=@MEMCHR], 3, bytes::top_first::<9>());
